@@ -33,6 +33,22 @@ module Wordlevel = struct
     if Zar.sign b = 0 then true else
     let q = Zar.div a b and r = Zar.rem a b in
     let is_const = (ty = "uc" || ty = "ic") in
+    (* the 12 TypedRepr / TypedReprRef implementations (arms regenerated from div_ops.rs): every ownership
+       combination of DivRem, Div, Rem must give these values (the harness checks that all call forms agree) *)
+    let typed_ok = is_const ||
+      (* all four combinations for moderate sizes, one (chosen by the operands) for long ones *)
+      (let sel = if nw a + nw b <= 80 then 4 else (Zar.to_int (Zar.rem (Zar.add a b) (Zar.of_int 4))) in
+       let l = s64_typed_values (Zar.of_int sel) a b in
+       let rec chk = function
+         | [] -> true
+         | Ok [x; y] :: Ok [u] :: Ok [v] :: t -> Zar.equal x q && Zar.equal y r && Zar.equal u q && Zar.equal v r && chk t
+         | _ -> false in
+       List.length l = (if sel = 4 then 12 else 3) && chk l) in
+    (* Large dividend, Small divisor, remainder only: rem_by_word / rem_by_dword with the source's index arithmetic *)
+    let idx_ok = match f with
+      | FRem | FRemEuclid | FIsMultipleOf when not is_const && Zar.geq a b128 && Zar.lt b b128 -> s64_rem_idx a b = Ok r
+      | _ -> true in
+    typed_ok && idx_ok &&
     match f with
     | FDiv when not is_const -> s64_repr_div a b = Ok q && m_repr_div a b = Ok q
     | FDivEuclid when ty = "u" -> s64_repr_div a b = Ok q && m_repr_div a b = Ok q
@@ -132,7 +148,9 @@ let judge op args got =
         (match got with "panic" :: _ -> pass ~nt:false ~extra:"cls=mc-zero" () | _ -> fail "panic <any>")
       else begin
         let showb = function Ok b -> "ok " ^ (if b then "1" else "0") | _ -> "other" in
-        let fid = "asis=" ^ (if split_ws (showb (s64_is_multiple_of_const (Zar.abs x) d)) = got then "same" else "diff") in
+        let idx_same = Zar.lt (Zar.abs x) Wordlevel.b128 ||
+          (match s64_rem_idx (Zar.abs x) d with Ok r -> split_ws (showb (Ok (Zar.sign r = 0))) = got | _ -> false) in
+        let fid = "asis=" ^ (if idx_same && split_ws (showb (s64_is_multiple_of_const (Zar.abs x) d)) = got then "same" else "diff") in
         expect ~extra:(fid ^ " cls=mc") (showb (is_multiple_of_spec x d)) got
       end
   | "km" | "mm" ->
